@@ -276,7 +276,14 @@ func genKey(t *rapid.T, label string) *Key {
 
 // genNonce draws a base64url nonce of exactly size bytes.
 func genNonce(t *rapid.T, size int, label string) string {
-	return b64(rapid.SliceOfN(rapid.Byte(), size, size).Draw(t, label))
+	s := b64(rapid.SliceOfN(rapid.Byte(), size, size).Draw(t, label))
+	if rapid.IntRange(0, 5).Draw(t, label+"-spareBits") == 0 {
+		// a nonce drawn as a random base64url string of the right length rather than as encoded bytes: the bits of the last
+		// character that encode nothing are set. It still decodes to the configured size and is, as a member of the JWK, a
+		// different string - another key with another commitment
+		s = nonCanonicalTail(s)
+	}
+	return s
 }
 
 // hasLeadingZero reports whether a coordinate of the key starts with a zero byte.
